@@ -103,7 +103,12 @@ def check(which, tier, also):
         d = SEEDED / sid
         meta = json.loads((d / "meta.json").read_text())
         props = [meta["property"]] + [a for a in also if a != meta["property"]]
-        tmp = scratch(d / "patch.diff")
+        try:
+            tmp = scratch(d / "patch.diff")
+        except RuntimeError as e:
+            print(f"STALE {sid}: {str(e)[:120]}", flush=True)
+            bad += 1
+            continue
         try:
             for prop in props:
                 env = dict(os.environ, RVMON_REPO=str(tmp), RVMON_KEEP_REPLAYS="1")
